@@ -196,11 +196,14 @@ class watchdog:
     """with watchdog(seconds): ...   -> raises Hang inside the block when it runs longer (main thread only; in other
     threads it is a no-op)."""
 
+    fired = 0          # hangs seen in this process: after three, later cases get 2 s only (the verdict is in already)
+
     def __init__(self, seconds=30.0):
-        self.seconds = seconds
+        self.seconds = seconds if watchdog.fired < 3 else min(seconds, 2.0)
         self.armed = False
 
     def _fire(self, signum, frame):
+        watchdog.fired += 1
         raise Hang("no return within %.0f s" % self.seconds)
 
     def __enter__(self):
